@@ -63,6 +63,10 @@ func checkC03(p *Prog, r *Report) {
 	r.Floor("FRESH", 1)
 	ruleZone(p, r)
 	ruleMakeExact(p, r)
+	ruleLimits(p, r)
+	ruleReadAhead(p, r)
+	r.Floor("READAHEAD", 3)
+	r.Floor("LIMITS", 3)
 	r.Floor("MAKEEXACT", 2)
 	r.Floor("ZONE", 1)
 }
